@@ -142,7 +142,7 @@ func (c *chainW) InsertBlock(b *types.Block) error {
 		// the handler goroutine of another connection gets its turn here: the early confirmations of
 		// this block have been popped, the block is not stored yet
 		w.inject = -1
-		w.injected++
+		w.injectedKinds["confirm-handled-during-insertBlock"] = true
 		hit("inject/confirm-during-insertBlock")
 		w.sendConfirm(inj, w.peers[len(w.peers)-1])
 		w.delivered[inj]++
@@ -157,6 +157,27 @@ func (c *chainW) InsertBlock(b *types.Block) error {
 		fmt.Printf("      chain.InsertBlock(h=%d, %d confirm(s) in body, %d merged from the cache) -> %v\n", b.Height(), len(b.Confirms), merged, err)
 	}
 	return err
+}
+
+// HasBlock: the second window. handleConfirmMsg looks at the chain and then pushes into the cache; the
+// receive loop (or a released insertBlock task) may insert the block in between.
+func (c *chainW) HasBlock(hash common.Hash) bool {
+	has := c.BlockChain.HasBlock(hash)
+	w := c.w
+	if ev := w.nested; ev != "" && !has && hash == w.nestedHash {
+		w.nested = ""
+		if nd := w.apply(ev); nd != "" {
+			panic("harness: nested event " + ev + ": " + nd)
+		}
+		if c.BlockChain.HasBlock(hash) {
+			w.injectedKinds["block-inserted-during-handleConfirmMsg"] = true
+			hit("inject/block-inserted-during-handleConfirmMsg")
+		}
+		if w.trace {
+			fmt.Printf("      (the handler saw HasBlock=false before %q ran; it goes on with that answer)\n", ev)
+		}
+	}
+	return has
 }
 
 func (c *chainW) InsertConfirms(height uint32, hash common.Hash, sigs []types.SignData) {
@@ -194,7 +215,9 @@ type bworld struct {
 	handed       []int          // heights the last cache drain handed to insertBlock, in order
 	clearHeight  uint32
 	inject       int // index of the confirmation message to be handled at the next matching InsertBlock, -1: none
-	injected     int
+	nested       string      // event to run between handleConfirmMsg's look at the chain and its push into the cache
+	nestedHash   common.Hash // ... when it asks for this block
+	injectedKinds map[string]bool
 	viols        []core.Violation
 	hist         []string
 }
@@ -222,7 +245,7 @@ func newWorld(sc *scenario, trace bool) *bworld {
 	gatePolicy()
 	ptime.Forget()
 	vclock.SetUnix(nowUnix)
-	w := &bworld{sc: sc, sg: sg, trace: trace, inject: -1, wireConfirms: map[common.Hash]int{}}
+	w := &bworld{sc: sc, sg: sg, trace: trace, inject: -1, wireConfirms: map[common.Hash]int{}, injectedKinds: map[string]bool{}}
 	self := node.K("observer")
 	if sc.self != "obs" {
 		var i int
@@ -450,6 +473,14 @@ func (w *bworld) labelFor(site string, confirmHeight int) string {
 		return fmt.Sprintf("clear:%d", w.clearHeight)
 	case strings.Contains(site, "RequestBlocks"):
 		return "auto:request-blocks"
+	case strings.Contains(site, "protocol_manager.go"):
+		// any other goroutine of the manager (none in the tree as it is; a repaired tree may start one):
+		// an event of the explorer, named by what it calls
+		s := site[strings.LastIndex(site, ":")+1:]
+		if len(s) > 30 {
+			s = s[:30]
+		}
+		return "x:" + strings.ReplaceAll(strings.ReplaceAll(s, " ", ""), "^", "")
 	}
 	// engine tasks: feeds, own batch confirms, delayed confirm fetch, evil-deputy judgement
 	s := site
@@ -756,8 +787,8 @@ func (w *bworld) finalCheck() {
 	w.drain()
 	o := w.observe()
 	suffix := ""
-	if w.injected > 0 {
-		suffix = "/with-confirm-handled-during-insertBlock"
+	if len(w.injectedKinds) > 0 {
+		suffix = "/with-" + strings.Join(sortedKeys(w.injectedKinds), "+")
 	}
 	diff := []string{}
 	if o.curHash != ref.cur {
@@ -800,6 +831,21 @@ func parseEvent(e string) (base string, inj int) {
 }
 
 func (w *bworld) apply(e string) (nondet string) {
+	if i := strings.Index(e, "~"); i >= 0 {
+		// "m<j>~<event>": <event> runs inside the delivery of confirmation message j, between the handler's
+		// look at the chain and its push into the confirmation cache
+		j, err := strconv.Atoi(strings.TrimPrefix(e[:i], "m"))
+		if err != nil || j < 0 || j >= len(w.sc.msgs) || w.sc.msgs[j].confirm == 0 || w.delivered[j] != 0 {
+			return "bad nested event " + e
+		}
+		w.nested, w.nestedHash = e[i+1:], w.sg.hash[w.sc.msgs[j].confirm]
+		w.deliver(j, -1)
+		if w.nested != "" {
+			w.nested = ""
+			return "the handler did not look at the chain: " + e
+		}
+		return ""
+	}
 	base, inj := parseEvent(e)
 	switch {
 	case base == "tick":
@@ -875,6 +921,26 @@ func (w *bworld) enabled(o bobs) []string {
 				for _, j := range undeliveredConfirm(h) {
 					ev = append(ev, fmt.Sprintf("m%d^%d", i, j))
 				}
+			}
+		}
+	}
+	if sc.race {
+		for j, m := range sc.msgs {
+			h := m.confirm
+			if h == 0 || w.delivered[j] != 0 || o.inChain[h] {
+				continue
+			}
+			for i, bm := range sc.msgs {
+				if w.delivered[i] == 0 || (w.delivered[i] == 1 && !w.dupSpent && !sc.nodup) {
+					for _, x := range bm.blocks {
+						if x == h {
+							ev = append(ev, fmt.Sprintf("m%d~m%d", j, i))
+						}
+					}
+				}
+			}
+			if w.pendingIns(h) {
+				ev = append(ev, fmt.Sprintf("m%d~t:ins:%d", j, h))
 			}
 		}
 	}
